@@ -161,8 +161,8 @@ def rule_run_cleanup(ctx: Ctx, out: Collector) -> None:
 
         def estep(prev, lab, e, state, facts, key=key):
             # state 1: the path established that the task is done / cancelled
-            if prev is not None and prev.kind == 'branch' and prev.info.get('test') is not None and lab == 'T':
-                if _done_test(ctx, prev, key):
+            if prev is not None and prev.kind == 'branch' and prev.info.get('test') is not None and lab in ('T', 'F'):
+                if _implies_done(ctx, prev.info['test'], lab == 'T', prev.inst, key):
                     return 1
             if e.id in cancels:
                 return None
@@ -176,18 +176,18 @@ def rule_run_cleanup(ctx: Ctx, out: Collector) -> None:
                     path_text(g, res[0]))
 
 
-def _done_test(ctx: Ctx, b: Ev, key) -> bool:
-    """The branch test holds only if the task `key` is done or cancelled (every disjunct says so)."""
-    test = b.info['test']
-    parts = test.values if isinstance(test, ast.BoolOp) and isinstance(test.op, ast.Or) else [test]
-    for p_ in parts:
-        ok = False
-        if isinstance(p_, ast.Call) and isinstance(p_.func, ast.Attribute) and p_.func.attr in ('done', 'cancelled'):
-            if sym.term(ctx.p, p_.func.value, b.inst) == key:
-                ok = True
-        if not ok:
-            return False
-    return True
+def _implies_done(ctx: Ctx, test: ast.AST, pol: bool, inst, key) -> bool:
+    """The outcome `pol` of `test` holds only if the task `key` is done or cancelled."""
+    if isinstance(test, ast.UnaryOp) and isinstance(test.op, ast.Not):
+        return _implies_done(ctx, test.operand, not pol, inst, key)
+    if isinstance(test, ast.BoolOp):
+        every = isinstance(test.op, ast.Or) == pol          # or-true / and-false: every operand must imply it
+        vals = [_implies_done(ctx, v, pol, inst, key) for v in test.values]
+        return all(vals) if every else any(vals)
+    if pol and isinstance(test, ast.Call) and isinstance(test.func, ast.Attribute) and test.func.attr in ('done', 'cancelled') \
+            and not test.args:
+        return sym.term(ctx.p, test.func.value, inst) == key
+    return False
 
 
 def _cleanup_nodes(unit: FuncUnit) -> Set[int]:
